@@ -301,4 +301,81 @@ theorem DocIter.prepare_candidates (texts : List (List Nat)) (pat : List Nat) (i
       simp only [baseOf]; omega
     · simp only [DocIter.prepare] at b; omega
 
+
+/-! ### the iterator `iterateNgrams` builds, for any choice `i ≤ j` of the two trigram positions -/
+
+/-- the hit iterator over the postings of the pattern's `i`-th trigram (and, when `i ≠ j`, its `j`-th trigram at
+    distance `j - i`) — case-sensitive: one posting list per trigram -/
+def mkHit (texts : List (List Nat)) (pat : List Nat) (i j : Nat) : Hit :=
+  if i = j then .basic [post (tri pat i) texts]
+  else .dist ⟨[post (tri pat i) texts], [post (tri pat j) texts], j - i, false⟩
+
+/-- the `ngramDocIterator` of a case-sensitive substring leaf, as `iterateNgrams` sets it up -/
+def mkIter (texts : List (List Nat)) (pat : List Nat) (i j : Nat) : DocIter :=
+  { leftPad := i, rightPad := pat.length - i, iter := mkHit texts pat i j, ends := endsOf texts, fileIdx := 0 }
+
+theorem single_sorted (g : List Nat) (texts : List (List Nat)) : Basic.Sorted [post g texts] := by
+  intro l hl; simp at hl; subst hl; exact postFrom_sorted g texts 0
+
+theorem single_bounded (g : List Nat) (texts : List (List Nat)) (h : totalLen texts < maxU32) :
+    Basic.Bounded [post g texts] := by
+  intro p ⟨l, hl, hp⟩
+  simp at hl; subst hl
+  have := postFrom_range g texts 0 p hp
+  omega
+
+theorem single_mem (g : List Nat) (texts : List (List Nat)) (q : Nat) (h : q ∈ post g texts) :
+    Basic.mem [post g texts] q := ⟨_, by simp, h⟩
+
+theorem mkIter_inv (texts : List (List Nat)) (pat : List Nat) (i j : Nat) (hij : i ≤ j) (hj : j + 3 ≤ pat.length)
+    (hsz : totalLen texts + pat.length < maxU32) : (mkIter texts pat i j).Inv texts pat i 0 := by
+  refine ⟨rfl, rfl, rfl, ?_, ?_, fun d _ hd => by simp [mkIter] at hd⟩
+  · simp only [mkIter, mkHit]
+    by_cases he : i = j
+    · simp only [he, if_true]
+      exact ⟨single_sorted _ _, single_bounded _ _ (by omega)⟩
+    · simp only [he, if_false]
+      exact ⟨⟨single_sorted _ _, single_sorted _ _, single_bounded _ _ (by omega), single_bounded _ _ (by omega)⟩,
+        fun h => by simp at h⟩
+  · intro d o _ hd hocc
+    have h1 := post_complete texts pat d o i hd hocc (by omega)
+    have h2 := post_complete texts pat d o j hd hocc hj
+    simp only [mkIter, mkHit]
+    by_cases he : i = j
+    · simp only [he, if_true]
+      subst he
+      exact single_mem _ _ _ h1
+    · simp only [he, if_false]
+      refine ⟨single_mem _ _ _ h1, single_mem _ _ _ ?_⟩
+      have e : baseOf texts d + o + i + (j - i) = baseOf texts d + o + j := by omega
+      show baseOf texts d + o + i + (j - i) ∈ post (tri pat j) texts
+      rw [e]; exact h2
+
+/-- drive the iterator the way the search loop drives a substring leaf: for each visited document, `nextDoc`
+    (peek), `prepare`, `candidates` -/
+def DocIter.drive (it : DocIter) : List Nat → List (Nat × List Nat)
+  | [] => []
+  | d :: ds => (d, ((it.nextDoc.2).prepare d).candidates.1) :: (((it.nextDoc.2).prepare d).candidates.2).drive ds
+
+theorem DocIter.drive_complete (texts : List (List Nat)) (pat : List Nat) (i : Nat) (hi : i + 3 ≤ pat.length)
+    (hsz : totalLen texts + pat.length < maxU32) : ∀ (docs : List Nat) (L : Nat) (it : DocIter),
+    it.Inv texts pat i L → docs.Pairwise (· < ·) → (∀ d, d ∈ docs → L ≤ d ∧ d < texts.length) →
+    ∀ d cs, (d, cs) ∈ it.drive docs → ∀ o, occAt pat texts d o → o ∈ cs := by
+  intro docs
+  induction docs with
+  | nil => intro L it _ _ _ d cs h; simp [DocIter.drive] at h
+  | cons d0 ds ih =>
+    intro L it hinv hsorted hrange d cs hmem o hocc
+    obtain ⟨n1, _⟩ := it.nextDoc_inv texts pat i L hi hinv
+    obtain ⟨hL, hd0⟩ := hrange d0 List.mem_cons_self
+    obtain ⟨p1, p2⟩ := DocIter.prepare_candidates texts pat i L it.nextDoc.2 hi hsz n1 d0 hL hd0
+    simp only [DocIter.drive, List.mem_cons] at hmem
+    rcases hmem with e | hmem
+    · obtain ⟨e1, e2⟩ := Prod.mk.inj e
+      subst e1; subst e2
+      exact p1 o hocc
+    · have hs := List.pairwise_cons.mp hsorted
+      exact ih (d0 + 1) _ p2 hs.2
+        (fun x hx => ⟨by have := hs.1 x hx; omega, (hrange x (List.mem_cons_of_mem _ hx)).2⟩) d cs hmem o hocc
+
 end ZoektModel.C01
